@@ -315,6 +315,114 @@ impl Probe for MergeProbe {
                 return;
             }
         }
+        // Presence after a complete exchange, independent of how arrays are stored: when every replica holds the same
+        // items and nothing is staged, every tracked object that is alive and occurs in the document some replica
+        // last committed occurs in the merged document (histories with explicit resolutions, time travel or
+        // object-level removals are left to the clauses above)
+        {
+            fn collect_ids(v: &Value, out: &mut BTreeSet<String>) {
+                match v {
+                    Value::Object(o) => {
+                        if let Some(id) = o.get("_id").and_then(|x| x.as_str()) {
+                            out.insert(id.to_string());
+                        }
+                        for (k, val) in o {
+                            if k.ends_with('\u{266D}') {
+                                collect_ids(val, out);
+                            }
+                        }
+                    }
+                    Value::Array(a) => a.iter().for_each(|e| collect_ids(e, out)),
+                    _ => {}
+                }
+            }
+            let plain = !hist.iter().any(|o| matches!(o, Op::Resolve(..) | Op::Travel(..) | Op::ObjRemove(..) | Op::ObjDel(..) | Op::StageReplay(..) | Op::StageReplayFrom(..) | Op::Snapshot(..) | Op::Attach(..)));
+            let n = sc.nrep;
+            let stores: Vec<RawStore> = (0..n).map(|q| w.reps[q].store.snapshot()).collect();
+            let synced = (1..n).all(|q| stores[q] == stores[0]) && (0..n).all(|q| !has_staging(&w.reps[q].m));
+            if plain && synced && n >= 2 {
+                let mut submitted: BTreeSet<String> = BTreeSet::new();
+                let mut keys_of: BTreeMap<String, BTreeSet<String>> = BTreeMap::new();
+                // elements some committed document no longer contained although an earlier committed document (of
+                // any replica) did: removed on purpose somewhere - whether they are shown is decided by the clauses
+                // above (an edit may outrank the deletion of the object while the array follows the removal)
+                let mut dropped: BTreeSet<String> = BTreeSet::new();
+                {
+                    let mut seen: BTreeSet<String> = BTreeSet::new();
+                    let mut pending: BTreeMap<usize, usize> = BTreeMap::new();
+                    for o in hist {
+                        match o {
+                            Op::Upd(r, d) => {
+                                pending.insert(*r, *d);
+                            }
+                            Op::Unstage(r) | Op::Reload(r) | Op::Reopen(r) => {
+                                pending.remove(r);
+                            }
+                            Op::Commit(r, _) => {
+                                if let Some(d) = pending.remove(r) {
+                                    let mut ids = BTreeSet::new();
+                                    collect_ids(&Value::Object(sc.menu.doc(d)), &mut ids);
+                                    for id in seen.difference(&ids) {
+                                        dropped.insert(id.clone());
+                                    }
+                                    seen.extend(ids);
+                                }
+                            }
+                            _ => {}
+                        }
+                    }
+                }
+                for q in 0..n {
+                    // the last document replica q submitted AND committed
+                    let mut last: Option<usize> = None;
+                    let mut pending: Option<usize> = None;
+                    for o in hist {
+                        match o {
+                            Op::Upd(r, d) if *r == q => pending = Some(*d),
+                            Op::Unstage(r) | Op::Reload(r) | Op::Reopen(r) if *r == q => pending = None,
+                            Op::Commit(r, _) if *r == q => {
+                                if let Some(d) = pending.take() {
+                                    last = Some(d);
+                                }
+                            }
+                            _ => {}
+                        }
+                    }
+                    if let Some(d) = last {
+                        // (elements of the TOP-LEVEL flattened arrays, remembered with their key: the clause applies
+                        // while the merged document still has an array under that key)
+                        for (k, val) in sc.menu.doc(d).iter() {
+                            if k.ends_with('\u{266D}') && val.is_array() {
+                                let mut ids = BTreeSet::new();
+                                collect_ids(val, &mut ids);
+                                for id in ids {
+                                    submitted.insert(id.clone());
+                                    keys_of.entry(id).or_default().insert(k.clone());
+                                }
+                            }
+                        }
+                    }
+                }
+                for q in 0..n {
+                    w.focus();
+                    let m = &w.reps[q].m;
+                    let rd = read_doc(m);
+                    let Some(doc) = rd.get("ok") else { continue };
+                    let mut shown = BTreeSet::new();
+                    collect_ids(doc, &mut shown);
+                    cx.count("presence_after_complete_exchange");
+                    for id in submitted.difference(&dropped) {
+                        let alive = m.get_winner(id).map(|w| !w.contains("-d_")).unwrap_or(false);
+                        let array_still_there = keys_of.get(id).map(|ks| ks.iter().any(|k| doc.get(k).is_some_and(|v| v.is_array()))).unwrap_or(false);
+                        if alive && array_still_there && !shown.contains(id) {
+                            cx.violation("C06", "C06:live-element-of-a-committed-version-missing-after-complete-exchange", sc, hist, json!({"replica": q, "element": id, "read": doc}));
+                            return;
+                        }
+                    }
+                }
+            }
+        }
+
     }
 }
 
